@@ -48,7 +48,13 @@ class Digits(enum.Enum):
     NIL = "null"
 
 
-ENUMS = {"Plain": Plain, "Level": Level, "Perm": Perm, "Word": Word, "Digits": Digits}
+class Cmd(enum.Enum):
+    add = 1
+    delete = 2
+    remove = 2          # an ALIAS of delete: a second name, not a second member
+
+
+ENUMS = {"Cmd": Cmd, "Plain": Plain, "Level": Level, "Perm": Perm, "Word": Word, "Digits": Digits}
 
 # leaf kinds: (field factory, value pool as JSON-able specs, exact round trip?)
 LEAVES = {
@@ -60,6 +66,9 @@ LEAVES = {
     "enum-by-value:Word": (lambda: Enum(values=Word, serialization_by_value=True), [["enum", "Word", "EMPTY"], ["enum", "Word", "X"]], True),
     "enum-by-name:Level": (lambda: Enum[Level], [["enum", "Level", "OFF"], ["enum", "Level", "LOW"]], True),
     "enum-by-name:Word": (lambda: Enum[Word], [["enum", "Word", "EMPTY"]], True),
+    "enum-by-name:Cmd": (lambda: Enum[Cmd], [["enum", "Cmd", "delete"], ["enum", "Cmd", "add"]], True),
+    "enum-by-value:Cmd": (lambda: Enum(values=Cmd, serialization_by_value=True), [["enum", "Cmd", "delete"], ["enum", "Cmd", "add"]], True),
+    "enum-restricted:Cmd": (lambda: Enum(values=[Cmd.add]), [["enum", "Cmd", "add"]], True),
     "date": (lambda: DateField(), [["date", 2020, 1, 31], ["date", 1999, 12, 1]], True),
     "datetime": (lambda: DateTime(), [["datetime", 2020, 1, 31, 23, 59, 1], ["datetime", 2001, 2, 3, 0, 0, 0]], True),
     "datestring": (lambda: DateString(), ["2020-01-31", "1999-12-01"], True),
@@ -515,6 +524,7 @@ SHAPES = {"bare": "L", "optional": ("opt", "L"), "array": ("arr", "L"), "deque":
 # 2e9 as a timestamp, and so does its constructor; a float is neither a str nor an int)
 CORRUPTIONS += [0, 1, 2, 0.0, 1.0, 2.0, 1600000000, 1600000000.5, 1.6e9, 999999999, 2000000001, 1000000000000,
                 -0.5, False, "1.5", "0", "A", "OFF", "x", "01/31/20 07:15:45", "2020-01-31", "nan", "sNaN", "Infinity"]
+CORRUPTIONS += ["remove", "delete", "add"]      # names of an enum class with an alias (remove = delete)
 NAN_STRINGS = ("nan", "sNaN")
 
 
@@ -527,7 +537,7 @@ def image_leaf(leaf, v):
         return float(v)
     if leaf.startswith("enum-by-value"):
         return v.value
-    if leaf.startswith("enum-by-name"):
+    if leaf.startswith("enum-by-name") or leaf.startswith("enum-restricted"):
         return v.name
     if leaf == "date":
         return v.strftime("%Y-%m-%d")
@@ -827,6 +837,8 @@ def xdecl_leaf(leaf):
             # members equal to their values: the constructor also accepts the raw value (and keeps it)
             return {"k": "enumName", "cls": ecls.__name__, "members": [[m.name, dump.dump_value(m.value)] for m in ecls], "mixin": True}
         return {"k": "base", "f": {"k": "enumCls", "cls": ecls.__name__, "names": [m.name for m in ecls]}}
+    if leaf.startswith("enum-restricted:"):
+        return {"k": "base", "f": {"k": "enumCls", "cls": leaf.split(":")[1], "names": ["add"]}}
     if leaf in FMT_KINDS:
         return {"k": "fmtStr", "kind": leaf, "strict": leaf != "timestring"}
     if leaf == "email":
@@ -1063,6 +1075,113 @@ def xcorrespond(case, impl, model):
     return _xdiff("deserialize", model.get("deser"), impl.get("x_deser"))
 
 
+# ------------------------------------------------------------------ C05: other entry points (trusted deserialization, FastSerializable)
+#
+# The round-trip clause quantifies over the Deserializer's options and over the ways a class can be serialized: for
+# classes over every collection kind (empty, one, several elements; alone or next to scalars) the document must come
+# back as an equal instance - with fields of the same Python type - also through
+# Deserializer(cls).deserialize(doc, direct_trusted_mapping=True), and the FastSerializable twin of the class must
+# produce the same pure-JSON document (Serializer(x).serialize() and x.serialize()).  Oracle-only; trusted == regular
+# in general is C10's subject.
+
+ENTRY_KINDS = {
+    "set-int": (lambda: Set[Integer], [set(), {0}, {3, 1, 2}]),
+    "set-str": (lambda: Set[String], [set(), {""}, {"b", "a"}]),
+    "array-int": (lambda: Array[Integer], [[], [0], [2, 1, 2]]),
+    "deque-str": (lambda: Deque[String], [[], [""], ["x", "y"]]),
+    "map-int": (lambda: Map[String, Integer], [{}, {"": 0}, {"a": 1, "b": 2}]),
+    "tuple": (lambda: Tuple[Integer, String], [(0, ""), (1, "a")]),
+}
+
+
+def entry_cases():
+    out = []
+    for kind in sorted(ENTRY_KINDS):
+        for vi in range(len(ENTRY_KINDS[kind][1])):
+            for shape in ("alone", "with-scalars", "two"):
+                out.append({"suite": "extras-entry", "kind": kind, "value": vi, "shape": shape})
+    return out
+
+
+def run_entry(case):
+    import collections
+    from typedpy import FastSerializable
+    mk, vals = ENTRY_KINDS[case["kind"]]
+    v = vals[case["value"]]
+    if case["kind"].startswith("deque"):
+        v = collections.deque(v)
+
+    def body():
+        b = {"c": mk(), "_additional_properties": False}
+        kw = {"c": v}
+        if case["shape"] == "with-scalars":
+            b.update({"n": Integer(), "s": String()})
+            kw.update({"n": 0, "s": ""})
+        if case["shape"] == "two":
+            other = "set-int" if case["kind"] != "set-int" else "array-int"
+            b["d"] = ENTRY_KINDS[other][0]()
+            kw["d"] = type(ENTRY_KINDS[other][1][0])()
+        return b, kw
+    res = {"site": f"{case['kind']}:{case['shape']}", "value": repr(v)[:80]}
+    try:
+        b, kw = body()
+        cls = type("E", (Structure,), b)
+        x = cls(**kw)
+        doc = Serializer(x).serialize()
+        json.dumps(doc)
+        y = Deserializer(cls).deserialize(json.loads(json.dumps(doc)))
+    except Exception as e:
+        return {"skip": f"{type(e).__name__}: {e}"[:200]}
+    res["regular_equal"] = bool(y == x)
+    try:
+        yt = Deserializer(cls).deserialize(json.loads(json.dumps(doc)), direct_trusted_mapping=True)
+        res["trusted"] = "ok"
+        res["trusted_equal"] = bool(yt == x)
+        # (the trusted path builds plain collections, not the validating wrappers: compare the builtin kind)
+        kind_of = lambda o: next((t.__name__ for t in (collections.deque, list, tuple, set, frozenset, dict) if isinstance(o, t)), type(o).__name__)
+        res["trusted_types"] = [[n, kind_of(getattr(y, n)), kind_of(getattr(yt, n))] for n in kw
+                                if kind_of(getattr(y, n)) != kind_of(getattr(yt, n))]
+    except Exception as e:
+        res["trusted"] = f"{type(e).__name__}: {e}"[:160]
+    try:
+        b2, kw2 = body()
+        fcls = type("E", (FastSerializable, Structure), b2)
+        xf = fcls(**kw2)
+        outs = {"Serializer(x).serialize()": Serializer(xf).serialize(), "x.serialize()": xf.serialize()}
+        canon = lambda d: {k: (sorted(w, key=repr) if isinstance(w, list) and case["kind"].startswith("set") or
+                               (k == "d" and isinstance(w, list)) else w) for k, w in d.items()} if isinstance(d, dict) else d
+        res["fast"] = []
+        for how, o in outs.items():
+            entry = {"how": how, "impure": pure_json_path(o)}
+            try:
+                json.dumps(o)
+                entry["same"] = canon(o) == canon(doc)
+            except Exception as e:
+                entry["dumps"] = f"{type(e).__name__}: {e}"[:120]
+            res["fast"].append(entry)
+    except Exception as e:
+        res["fast_exc"] = f"{type(e).__name__}: {e}"[:200]
+    return res
+
+
+def judge_entry(case, impl):
+    if "skip" in impl:
+        return []
+    fails = []
+    site = impl["site"]
+    if impl.get("trusted") == "ok" and impl.get("regular_equal"):
+        if not impl.get("trusted_equal"):
+            fails.append((f"entry:trusted-roundtrip-differs:{site}", f"Deserializer(cls).deserialize(doc, direct_trusted_mapping=True) of the serialized c={impl['value']} is not equal to the instance"))
+        elif impl.get("trusted_types"):
+            fails.append((f"entry:trusted-roundtrip-type:{site}", f"the trusted deserialization of c={impl['value']} holds another Python type than the regular one: {impl['trusted_types']}"))
+    for e in impl.get("fast", []):
+        if e.get("impure") or "dumps" in e:
+            fails.append((f"entry:fast-not-json:{site}", f"FastSerializable twin: {e['how']} is not pure JSON for c={impl['value']}: {e.get('impure') or e.get('dumps')}"))
+        elif e.get("same") is False:
+            fails.append((f"entry:fast-differs:{site}", f"FastSerializable twin: {e['how']} differs from the regular serialization for c={impl['value']}"))
+    return fails
+
+
 # ------------------------------------------------------------------ C02: ill-typed constructor arguments
 
 CTOR_BAD = [5, 2.5, None, True, ["www.example.com"], {"host": "x"}, ("a", "b"), object, b"a.com", "n/a", "", -1, [], {},
@@ -1078,7 +1197,7 @@ def _ctor_leaves():
         "string-bounded": (lambda: String(minLength=2, maxLength=4, pattern="^[a-z]+$"), ["ab", "abcd"], True),
         "integer-bounded": (lambda: Integer(minimum=0, maximum=9), [0, 9], True),
     }
-    return {**{k: v for k, v in LEAVES.items() if k not in JSONLIKE_LEAVES}, **extra}
+    return {**{k: v for k, v in LEAVES.items() if k not in JSONLIKE_LEAVES and not k.endswith(":Cmd")}, **extra}
 
 
 CTOR_LEAVES = None
